@@ -63,8 +63,11 @@ func (impl Implementation) Dgels(trans blas.Transpose, m, n, nrhs int, a []float
 
 	// Quick return if possible.
 	if mn == 0 || nrhs == 0 {
+		work[0] = float64(max(1, minwrk))
+		if lwork == -1 {
+			return true
+		}
 		impl.Dlaset(blas.All, max(m, n), nrhs, 0, 0, b, ldb)
-		work[0] = 1
 		return true
 	}
 
@@ -109,6 +112,7 @@ func (impl Implementation) Dgels(trans blas.Transpose, m, n, nrhs int, a []float
 		iascl = 1
 	} else if anrm > bignum {
 		impl.Dlascl(lapack.General, 0, 0, anrm, bignum, m, n, a, lda)
+		iascl = 2
 	} else if anrm == 0 {
 		// Matrix is all zeros.
 		impl.Dlaset(blas.All, max(m, n), nrhs, 0, 0, b, ldb)
@@ -198,6 +202,7 @@ func (impl Implementation) Dgels(trans blas.Transpose, m, n, nrhs int, a []float
 			if !ok {
 				return false
 			}
+			scllen = m
 		}
 	}
 
